@@ -25,6 +25,8 @@ Ctxs == {"expr", "assign", "augassign", "return", "if_test", "while_test", "for_
          "in_if_body", "in_for_body", "in_with_body", "in_try_body", "in_else_body", "in_while_body"}
 Binds == {"none", "assign_before", "assign_after", "assign_same_line", "tuple_before", "for_target", "with_as",
           "annassign_before", "augassign_before", "walrus_before", "except_as", "import_in_fn", "nested_def", "global_decl",
+          \* structural pattern matching: the name is CAPTURED by the pattern of the `case` line above the use
+          "match_capture", "match_as", "match_star",
           \* the name is a PARAMETER of the enclosing function, in every syntactic kind a parameter can take
           \* the function merely carries @pytest.mark.usefixtures("fx"): the fixture is activated, the NAME is not bound
           "usefixtures_mark",
@@ -59,7 +61,8 @@ ModuleName(v) == v \in {"module_level_name", "imported_name", "module_function"}
 IsParam(b) == b \in {"param", "param_default", "param_annotated", "param_posonly", "param_kwonly", "param_kwonly_default",
                      "param_vararg", "param_kwarg"}
 BoundEarlier(b) == b \in {"assign_before", "tuple_before", "for_target", "with_as", "annassign_before", "augassign_before",
-                          "walrus_before", "except_as", "import_in_fn", "nested_def"} \/ IsParam(b)
+                          "walrus_before", "except_as", "import_in_fn", "nested_def",
+                          "match_capture", "match_as", "match_star"} \/ IsParam(b)
 
 \* verdicts: "flag" (must be flagged at its exact position), "noflag" (must not be flagged), "open" (statement silent)
 Verdict(c) ==
